@@ -8,22 +8,21 @@ import (
 
 	"cvssmc/internal/dump"
 
-	"github.com/goark/go-cvss/cvsserr"
-	v2 "github.com/goark/go-cvss/v2/metric"
-	v3 "github.com/goark/go-cvss/v3/metric"
-	"github.com/goark/go-cvss/v3/report"
-	"github.com/goark/go-cvss/v3/report/names"
-	v3version "github.com/goark/go-cvss/v3/version"
+	_ "github.com/goark/go-cvss/cvsserr"
+	_ "github.com/goark/go-cvss/v2/metric"
+	_ "github.com/goark/go-cvss/v3/metric"
+	_ "github.com/goark/go-cvss/v3/report"
+	_ "github.com/goark/go-cvss/v3/report/names"
+	_ "github.com/goark/go-cvss/v3/version"
+	"github.com/goark/go-cvss/verifreg"
 )
 
 // haveGlobals: this binary was built with the generated VerifGlobals() functions (-overlay).
 const haveGlobals = true
 
 func globalSets() map[string]map[string]any {
-	return map[string]map[string]any{
-		"cvsserr": cvsserr.VerifGlobals(), "v2/metric": v2.VerifGlobals(), "v3/metric": v3.VerifGlobals(),
-		"v3/report": report.VerifGlobals(), "v3/report/names": names.VerifGlobals(), "v3/version": v3version.VerifGlobals(),
-	}
+	// every library package linked into this binary registers itself (generated files)
+	return verifreg.All()
 }
 
 // globalsDump renders every package-level variable of the library (content, never addresses).
